@@ -44,6 +44,24 @@ class PartialEvalInfo:
     def_use: DefineUseAnalysis
 
 
+class _WritesLists(DefaultVisitor):
+    """Does the function contain an indexed assignment, or a call
+    that could perform one on a list it is handed?"""
+
+    def check(self, func: FuncDef) -> bool:
+        self.found = False
+        self._visit_function(func, None)
+        return self.found
+
+    def _visit_indexed_assign(self, stmt: IndexedAssign, ctx: None):
+        self.found = True
+
+    def _visit_call(self, e: Call, ctx: None):
+        super()._visit_call(e, ctx)
+        if not (isinstance(e.fn, type) and issubclass(e.fn, Context)):
+            self.found = True
+
+
 class _PartialEvalInstance(DefaultVisitor):
     """
     Partial evaluation instance for a function.
@@ -66,6 +84,7 @@ class _PartialEvalInstance(DefaultVisitor):
         self.rt = get_default_interpreter()
         self.by_def = {}
         self.by_expr = {}
+        self._writes_lists = _WritesLists().check(func)
 
     def apply(self) -> PartialEvalInfo:
         self._visit_function(self.func, None)
@@ -335,7 +354,13 @@ class _PartialEvalInstance(DefaultVisitor):
             case Id():
                 if isinstance(binding, NamedId):
                     d = self.def_use.find_def_from_site(binding, site)
-                    self.by_def[d] = val
+                    if self._writes_lists and self._holds_list(val):
+                        # a list is a mutable object that other names may
+                        # share: it stays a known constant only in a function
+                        # that cannot write to a list
+                        self.by_def[d] = _TOP
+                    else:
+                        self.by_def[d] = val
             case TupleBinding():
                 assert isinstance(val, tuple)
                 for elt, v in zip(binding.elts, val):
@@ -349,6 +374,12 @@ class _PartialEvalInstance(DefaultVisitor):
             # RHS isn't statically foldable — clear any stale by_def
             # entry for the target (matters for loop re-iteration).
             self._clear_binding(stmt, stmt.target)
+
+    @classmethod
+    def _holds_list(cls, val) -> bool:
+        if isinstance(val, list):
+            return True
+        return isinstance(val, tuple) and any(cls._holds_list(v) for v in val)
 
     def _clear_binding(self, site: DefSite, binding: Id | TupleBinding):
         match binding:
